@@ -56,6 +56,8 @@ impl TxnIterator for SecondaryTableTxnIterator {
         &mut self,
         expected_size: Option<usize>,
     ) -> StorageResult<Option<DataChunk>> {
+        #[cfg(feature = "verif")]
+        crate::verif::point("scan.next").await;
         Ok(self
             .iter
             .next_batch(expected_size)
